@@ -263,3 +263,68 @@ end
 theorem prettyFile_norm (ss : List Ast) : prettyFile (normList ss) = prettyFile ss := prettyStmts_norm ss 0
 
 end Sqf.Pretty
+
+/-! ## An executable test of the hypothesis `Good` (run by the driver on every generated program) -/
+namespace Sqf.Pretty
+open Sqf D
+
+mutual
+def goodB (tk : Name → PTok) : Ast → Bool
+  | .leaf l => decide (leafOfTok (leafTok tk l) = some l)
+  | .unary n a => decide (unOfTok (unTok tk n) = some n) && isExprA a && goodB tk a
+  | .binary l n x y => decide (binOfTok (tk n) = some (l, n)) && decide (1 ≤ l) && decide (l < top) && isExprA x && isExprA y && goodB tk x && goodB tk y
+  | .array es => goodElemsB tk es
+  | .code ss => goodStmtsB tk ss
+  | .assign lhs e => isLeafA lhs && goodB tk lhs && isExprA e && goodB tk e
+  | .assignLocal _ e => isExprA e && goodB tk e
+def goodElemsB (tk : Name → PTok) : List Ast → Bool
+  | [] => true
+  | a :: as => isExprA a && goodB tk a && goodElemsB tk as
+def goodStmtsB (tk : Name → PTok) : List Ast → Bool
+  | [] => true
+  | a :: as => goodB tk a && goodStmtsB tk as
+end
+
+mutual
+theorem goodB_sound (tk : Name → PTok) : ∀ a : Ast, goodB tk a = true → Good tk a
+  | .leaf l, h => by simpa [goodB, Good] using h
+  | .unary n a, h => by
+    simp only [goodB, Bool.and_eq_true, decide_eq_true_eq] at h
+    simp only [Good]
+    exact ⟨h.1.1, h.1.2, goodB_sound tk a h.2⟩
+  | .binary l n x y, h => by
+    simp only [goodB, Bool.and_eq_true, decide_eq_true_eq] at h
+    simp only [Good]
+    obtain ⟨⟨⟨⟨⟨⟨h1, h2⟩, h3⟩, h4⟩, h5⟩, h6⟩, h7⟩ := h
+    exact ⟨h1, h2, h3, h4, h5, goodB_sound tk x h6, goodB_sound tk y h7⟩
+  | .array es, h => by
+    simp only [goodB] at h
+    simp only [Good]
+    exact goodElemsB_sound tk es h
+  | .code ss, h => by
+    simp only [goodB] at h
+    simp only [Good]
+    exact goodStmtsB_sound tk ss h
+  | .assign lhs e, h => by
+    simp only [goodB, Bool.and_eq_true] at h
+    simp only [Good]
+    exact ⟨h.1.1.1, goodB_sound tk lhs h.1.1.2, h.1.2, goodB_sound tk e h.2⟩
+  | .assignLocal n e, h => by
+    simp only [goodB, Bool.and_eq_true] at h
+    simp only [Good]
+    exact ⟨h.1, goodB_sound tk e h.2⟩
+theorem goodElemsB_sound (tk : Name → PTok) : ∀ es : List Ast, goodElemsB tk es = true → GoodElems tk es
+  | [], _ => by simp [GoodElems]
+  | a :: as, h => by
+    simp only [goodElemsB, Bool.and_eq_true] at h
+    simp only [GoodElems]
+    exact ⟨h.1.1, goodB_sound tk a h.1.2, goodElemsB_sound tk as h.2⟩
+theorem goodStmtsB_sound (tk : Name → PTok) : ∀ ss : List Ast, goodStmtsB tk ss = true → GoodStmts tk ss
+  | [], _ => by simp [GoodStmts]
+  | a :: as, h => by
+    simp only [goodStmtsB, Bool.and_eq_true] at h
+    simp only [GoodStmts]
+    exact ⟨goodB_sound tk a h.1, goodStmtsB_sound tk as h.2⟩
+end
+
+end Sqf.Pretty
